@@ -14,11 +14,11 @@ impl Prop for C06 {
     fn meta(&self) -> Meta {
         Meta {
             level: "exploration",
-            rule: "same program space as C01 with the filler blob length swept through every residue modulo 1020 and modulo 4 (run index), blob/image/mask lengths drawn around 0, page and 8 KiB copy-buffer boundaries; sources are SimPipe readers with seeded short reads, read-back goes through E57Reader::blob into SimPipe sinks with seeded short writes. Oracle: returned count = descriptor length = bytes written, bytes identical, each image's blob and mask descriptors yield that image's own (unique) payload. Distinct = same fingerprint as C01; non-trivial = more than one page and at least one payload".into(),
+            rule: "same program space as C01 with the filler blob length swept through every residue modulo 1020 and modulo 4 (run index), blob/image/mask lengths drawn around 0, page and 8 KiB copy-buffer boundaries; sources are SimPipe readers with seeded short reads, read-back goes through E57Reader::blob into SimPipe sinks with seeded short writes; every eighth run first rewrites all blob section headers to the convention older versions of this crate wrote (section length = data length, accepted by the reader on purpose) and re-seals the pages. Oracle: returned count = descriptor length = bytes written, bytes identical, each image's blob and mask descriptors yield that image's own (unique) payload. Distinct = same fingerprint as C01; non-trivial = more than one page and at least one payload".into(),
             assumptions: vec!["device and pipes are fault-free apart from short transfers".into()],
             real: vec!["e57 crate: E57Writer::add_blob, ImageWriter, Blob::write/read, paged writer/reader, E57Reader".into(), "roxmltree".into(), "std::io::copy".into()],
             stub: vec!["SimDisk device".into(), "SimPipe sources and sinks".into(), "scene model".into()],
-            required_probes: vec!["blob_header_straddles_page".into(), "short_device_transfers".into()],
+            required_probes: vec!["blob_header_straddles_page".into(), "short_device_transfers".into(), "legacy_blob_section_length_convention".into()],
         }
     }
     fn plan(&self, tier: Tier) -> Plan {
@@ -28,7 +28,11 @@ impl Prop for C06 {
         }
     }
     fn generate(&self, rc: &RunCtx) -> WriterCase {
-        gen_case(rc, true, false)
+        let mut c = gen_case(rc, true, false);
+        // every eighth run reads the blobs back from a file in the section-length convention of
+        // older versions of this crate
+        c.legacy_blob_headers = rc.index % 8 == 5;
+        c
     }
     fn execute(&self, case: &WriterCase, st: &mut RunStats) -> Outcome<WriterCase> {
         run_points(case, st, true, false)
